@@ -1,7 +1,8 @@
-(* Properties_C07.v — property C07 (every diagnostic points at a real syntactic element) for modelled checkers:
+(* Properties_C07.v — property C07 (every diagnostic points at a real syntactic element) for the modelled checkers:
    the position handed to ctx.Warn is the Pos() of a node of the analysed file, hence (by wf, which the tie checks
-   against an independent go/scanner pass) the start of a token. *)
-From GC Require Import Base GoAst Model_Checkers Proofs_Checkers Proofs_Witnesses.
+   against an independent go/scanner pass) the start of a token of that file; the zero-value suggestion of newDeref
+   never contains a nil node. *)
+From GC Require Import Base GoAst Model_Checkers Model_Checkers_Prefix Proofs_Checkers Proofs_Witnesses.
 
 Theorem C07_newDeref_pos_valid : forall f, wf f = true -> forall w, In w (warnings (run_newDeref f)) -> In (w_pos w) (token_starts f).
 Proof. exact (fun f W w H => cause_pos_valid f w W (newDeref_cause f w H)). Qed.
@@ -19,11 +20,55 @@ Theorem C07_dupOption_pos_valid : forall f, wf f = true -> forall w, In w (warni
 Proof. exact (fun f W w H => cause_pos_valid f w W (dupOption_cause f w H)). Qed.
 Print Assumptions C07_dupOption_pos_valid.
 
-Theorem C07_zero_value_no_nil_arg_refuted : exists f, wf f = true /\ exists w, In w (warnings (run_newDeref f)) /\ w_render_ok w = false.
-Proof. exact newDeref_render_refuted. Qed.
-Print Assumptions C07_zero_value_no_nil_arg_refuted.
+Theorem C07_appendCombine_pos_valid : forall f, wf f = true -> forall w, In w (warnings (run_appendCombine f)) -> In (w_pos w) (token_starts f).
+Proof. exact (fun f W w H => cause_pos_valid f w W (appendCombine_cause f w H)). Qed.
+Print Assumptions C07_appendCombine_pos_valid.
 
-Theorem C07_zero_value_no_nil_arg_partial : forall f, wf f = true -> all_nodes_sat g_new_has_literal f -> forall w, In w (warnings (run_newDeref f)) -> w_render_ok w = true.
-Proof. exact (fun f _ G w H => newDeref_render_partial f w G H). Qed.
-Print Assumptions C07_zero_value_no_nil_arg_partial.
+Theorem C07_appendAssign_pos_valid : forall f, wf f = true -> forall w, In w (warnings (run_appendAssign f)) -> In (w_pos w) (token_starts f).
+Proof. exact (fun f W w H => cause_pos_valid f w W (appendAssign_cause f w H)). Qed.
+Print Assumptions C07_appendAssign_pos_valid.
+
+Theorem C07_typeDefFirst_pos_valid : forall f, wf f = true -> forall w, In w (warnings (run_typeDefFirst f)) -> In (w_pos w) (token_starts f).
+Proof. exact (fun f W w H => cause_pos_valid f w W (typeDefFirst_cause f w H)). Qed.
+Print Assumptions C07_typeDefFirst_pos_valid.
+
+Theorem C07_sortSlice_pos_valid : forall f, wf f = true -> forall w, In w (warnings (run_sortSlice f)) -> In (w_pos w) (token_starts f).
+Proof. exact (fun f W w H => cause_pos_valid f w W (sortSlice_cause f w H)). Qed.
+Print Assumptions C07_sortSlice_pos_valid.
+
+Theorem C07_evalOrder_pos_valid : forall f, wf f = true -> forall w, In w (warnings (run_evalOrder f)) -> In (w_pos w) (token_starts f).
+Proof. exact (fun f W w H => cause_pos_valid f w W (evalOrder_cause f w H)). Qed.
+Print Assumptions C07_evalOrder_pos_valid.
+
+Theorem C07_rangeAppendAll_pos_valid : forall f, wf f = true -> forall w, In w (warnings (run_rangeAppendAll f)) -> In (w_pos w) (token_starts f).
+Proof. exact (fun f W w H => cause_pos_valid f w W (rangeAppendAll_cause f w H)). Qed.
+Print Assumptions C07_rangeAppendAll_pos_valid.
+
+Theorem C07_truncateCmp_pos_valid : forall skip f, wf f = true -> forall w, In w (warnings (run_truncateCmp skip f)) -> In (w_pos w) (token_starts f).
+Proof. exact (fun skip f W w H => cause_pos_valid f w W (truncateCmp_cause skip f w H)). Qed.
+Print Assumptions C07_truncateCmp_pos_valid.
+
+Theorem C07_nilValReturn_pos_valid : forall f, wf f = true -> forall w, In w (warnings (run_nilValReturn f)) -> In (w_pos w) (token_starts f).
+Proof. exact (fun f W w H => cause_pos_valid f w W (nilValReturn_cause f w H)). Qed.
+Print Assumptions C07_nilValReturn_pos_valid.
+
+Theorem C07_badRegexp_entry_silent : forall f w, ~ In w (warnings (run_badRegexp_entry f)).
+Proof. exact (fun f w => regexp_entry_no_warnings badRegexp_names "badRegexp" f w). Qed.
+Print Assumptions C07_badRegexp_entry_silent.
+
+Theorem C07_regexpPattern_entry_silent : forall f w, ~ In w (warnings (run_regexpPattern_entry f)).
+Proof. exact (fun f w => regexp_entry_no_warnings regexpPattern_names "regexpPattern" f w). Qed.
+Print Assumptions C07_regexpPattern_entry_silent.
+
+Theorem C07_regexpSimplify_entry_silent : forall f w, ~ In w (warnings (run_regexpSimplify_entry f)).
+Proof. exact (fun f w => regexp_entry_no_warnings regexpSimplify_names "regexpSimplify" f w). Qed.
+Print Assumptions C07_regexpSimplify_entry_silent.
+
+Theorem C07_zero_value_no_nil_arg : forall f, wf f = true -> forall w, In w (warnings (run_newDeref f)) -> w_render_ok w = true.
+Proof. exact (fun f _ w H => newDeref_render_ok f w H). Qed.
+Print Assumptions C07_zero_value_no_nil_arg.
+
+Theorem C07_prefix_zero_value_no_nil_arg_refuted : exists f, wf f = true /\ exists w, In w (Prefix.warnings (run_newDeref_prefix f)) /\ Prefix.w_render_ok w = false.
+Proof. exact newDeref_prefix_render_refuted. Qed.
+Print Assumptions C07_prefix_zero_value_no_nil_arg_refuted.
 
